@@ -3,9 +3,12 @@
 package main
 
 import (
+	"encoding/json"
 	"flag"
 	"fmt"
 	"os"
+	"path/filepath"
+	"runtime/debug"
 	"runtime/pprof"
 	"sort"
 	"strconv"
@@ -53,5 +56,15 @@ func main() {
 		pprof.StartCPUProfile(f)
 		defer pprof.StopCPUProfile()
 	}
+	// a panic that reaches the top of the main goroutine while a scenario runs is recorded with that
+	// scenario's key (exit 3), so that the check can confirm it by running the scenario alone
+	defer func() {
+		if p := recover(); p != nil {
+			rec, _ := json.Marshal(map[string]string{"key": vh.Current, "panic": fmt.Sprint(p), "stack": string(debug.Stack())})
+			os.WriteFile(filepath.Join(c.dir, "panic.json"), rec, 0o644)
+			fmt.Fprintf(os.Stderr, "wsverif: panic in scenario %q: %v\n", vh.Current, p)
+			os.Exit(3)
+		}
+	}()
 	d(c)
 }
